@@ -52,3 +52,69 @@ Proof.
     match goal with |- ?x * _ + _ = _ => replace x with (a * exp (- dt / tc) + inc * ind s) by (symmetry; exact E) end.
     subst lam. rn_simpl. cbn [Rpow_def.pow]. generalize (exp (- dt / tc) ^ length tl). intros y. ring.
 Qed.
+
+(* ---- the adaptation update of a whole column (all batch samples of one neuron, reduced by the batch mean) ---- *)
+Lemma tsum_affine {X} (f : X -> R) (a k : R) (l : list X) :
+  tsum RN (map (fun o => a + k * f o) l) = INR (length l) * a + k * tsum RN (map f l).
+Proof.
+  induction l as [|o l IH]; [cbn [map tsum length INR]; rn_simpl; lra|].
+  change (tsum RN (map (fun o => a + k * f o) (o :: l))) with ((a + k * f o) + tsum RN (map (fun o => a + k * f o) l)).
+  change (tsum RN (map f (o :: l))) with (f o + tsum RN (map f l)).
+  change (length (o :: l)) with (S (length l)). rewrite S_INR, IH. rn_simpl. ring.
+Qed.
+
+Lemma batch_mean_affine {X} (f : X -> R) (a k : R) (l : list X) : l <> [] ->
+  batch_mean RN (map (fun o => a + k * f o) l) = a + k * batch_mean RN (map f l).
+Proof.
+  intros Hl. unfold batch_mean. rewrite !map_length, tsum_affine. rn_simpl. rewrite <- INR_IZR_INZ.
+  assert (INR (length l) <> 0). { destruct l as [|o l]; [congruence|]. change (length (o :: l)) with (S (length l)). rewrite S_INR. pose proof (pos_INR (length l)). lra. }
+  field. assumption.
+Qed.
+
+Lemma map3_ext {A B C D} (f g : A -> B -> C -> D) l1 l2 l3 :
+  (forall a b c, f a b c = g a b c) -> map3 f l1 l2 l3 = map3 g l1 l2 l3.
+Proof.
+  intros H. revert l2 l3. induction l1 as [|a l1 IH]; intros [|b l2] [|c l3]; cbn; try reflexivity. rewrite H, IH. reflexivity.
+Qed.
+Lemma map4_ext {A B C D E} (f g : A -> B -> C -> D -> E) l1 l2 l3 l4 :
+  (forall a b c d, f a b c d = g a b c d) -> map4 f l1 l2 l3 l4 = map4 g l1 l2 l3 l4.
+Proof.
+  intros H. revert l2 l3 l4. induction l1 as [|a l1 IH]; intros [|b l2] [|c l3] [|d l4]; cbn; try reflexivity. rewrite H, IH. reflexivity.
+Qed.
+
+(* If, after the step, every batch sample of a neuron is inside its refractory period and refrac_lock is on, the
+   neuron's adaptations only receive the post-spike jump, scaled by the fraction of samples that spiked
+   (batch mean of the spike indicator) - for all four adaptive classes. *)
+Theorem column_adaptation_frozen :
+  forall (c : cls) (p : params RN) (a : list R) (outs : list (cellout RN)),
+    outs <> [] -> Forall (fun o => 0 < o_r RN o) outs ->
+    let rate := batch_mean RN (map (fun o => ind (o_spike RN o)) outs) in
+    cls_adapt RN c p true a outs =
+    match c with
+    | ALIF | GLIF2 => map3 (fun a _ inc => a + inc * rate) a (tc_adaptation RN p) (adapt_increment RN p)
+    | Izhikevich | AdEx =>
+        map4 (fun a _ _ inc => a + inc * rate) a (tc_adaptation RN p) (adapt_vc_coupling RN p) (adapt_increment RN p)
+    | _ => a
+    end.
+Proof.
+  intros c p a outs Hne HF rate.
+  assert (E3 : forall (tcf : R -> R),
+    map3 (fun a tc inc => batch_mean RN (map (fun o => ats a (o_spike RN o) (step_time RN p) (tcf tc) inc (lockr RN true (o_r RN o))) outs))
+         a (tc_adaptation RN p) (adapt_increment RN p)
+    = map3 (fun a _ inc => a + inc * rate) a (tc_adaptation RN p) (adapt_increment RN p)).
+  { intros tcf. apply map3_ext. intros a0 tc inc. subst rate. rewrite <- batch_mean_affine by exact Hne. f_equal.
+    apply map_ext_in. intros o Hin. rewrite Forall_forall in HF. specialize (HF o Hin). cbn [lockr].
+    apply (adaptation_frozen_in_refractory a0 0 (o_spike RN o) (step_time RN p) 0 (tcf tc) 0 inc (o_r RN o) HF). }
+  assert (E4 :
+    map4 (fun a tc vc inc => batch_mean RN (map (fun o => acl a (o_v RN o) (o_spike RN o) (step_time RN p) (rest_v RN p) tc vc inc (lockr RN true (o_r RN o))) outs))
+         a (tc_adaptation RN p) (adapt_vc_coupling RN p) (adapt_increment RN p)
+    = map4 (fun a _ _ inc => a + inc * rate) a (tc_adaptation RN p) (adapt_vc_coupling RN p) (adapt_increment RN p)).
+  { apply map4_ext. intros a0 tc vc inc. subst rate. rewrite <- batch_mean_affine by exact Hne. f_equal.
+    apply map_ext_in. intros o Hin. rewrite Forall_forall in HF. specialize (HF o Hin). cbn [lockr].
+    apply (adaptation_frozen_in_refractory a0 (o_v RN o) (o_spike RN o) (step_time RN p) (rest_v RN p) tc vc inc (o_r RN o) HF). }
+  destruct c; cbn [cls_adapt]; try reflexivity.
+  - exact (E3 (fun tc => tc)).
+  - unfold adapt_glif2. exact (E3 (fun rc => div RN (one RN) rc)).
+  - exact E4.
+  - exact E4.
+Qed.
